@@ -229,7 +229,7 @@ def move_staticmethod_static_scope(source: str, preserve: Collection[str]) -> st
                 decorator_list=[
                     dec for dec in funcdef.decorator_list if dec not in staticmethod_decorators
                 ],
-                type_params=[],
+                type_params=getattr(funcdef, "type_params", []),
                 returns=funcdef.returns,
                 # Before the class and its decorators, not inside whatever ends on the line above
                 lineno=min(node.lineno for node in (classdef, *classdef.decorator_list)),
